@@ -197,6 +197,20 @@ func registerIntrinsics(p *Program) {
 		}
 		return BV(0, 64)
 	})
+	reg("verifGo", func(ex *Exec, a []Value) Value {
+		t := ex.spawnThread(a[0], nil, fmt.Sprintf("harness#%d", len(ex.threads)+1))
+		ex.runThread(t)
+		return nil
+	})
+	reg("verifRunThreads", func(ex *Exec, a []Value) Value {
+		return BV(uint64(ex.RunThreads(concInt(ex, a[0]))), 64)
+	})
+	reg("verifCrashed", func(ex *Exec, a []Value) Value {
+		if ex.crashed != nil {
+			ex.observes = append(ex.observes, "crash in "+ex.crashedIn+": "+ex.crashed.Msg)
+		}
+		return Bool(ex.crashed != nil)
+	})
 	reg("verifSymbolic", func(ex *Exec, a []Value) Value { return True })
 	reg("verifNondetTime", func(ex *Exec, a []Value) Value {
 		tag := concStr(ex, a[0])
